@@ -80,6 +80,12 @@ Theorem C04_quiescent :
 Proof. exact quiescent_thm. Qed.
 Print Assumptions C04_quiescent.
 
+(* the hypothesis "complete schedule" is satisfiable for every configuration and program
+   (running the threads one after the other never blocks), so none of the theorems above is vacuous *)
+Theorem C04_complete_exists : forall cfg prog, exists sched, zcomplete (zrun cfg prog sched).
+Proof. exact complete_exists_thm. Qed.
+Print Assumptions C04_complete_exists.
+
 (* the oracle run on the real sinks' bytes is the specification: sound, and complete on
    newline-terminated lines *)
 Theorem C04_is_merge_sound :
